@@ -135,6 +135,7 @@ package internal
 //@   option props=[C13]
 //@   requires $C && f != nil && t != nil && call != nil
 //@   requires typeChecked-predicate-has-function: len(call.Args) == 1
+//@   at call TypeOf 1 assume library-a-signature-is-its-own-underlying-type: implies(typeof(ret) == typeid("*go/types.Signature"), pure("invoke go/types.Type.Underlying", ret) == ret)
 
 //@ func (*compiler).compileParallelTaskFn
 //@   option props=[C13]
